@@ -340,6 +340,9 @@ class EffectSystem:
                     lit = len(n.args) > 1 and isinstance(n.args[1], ast.Constant) and isinstance(n.args[1].value, str)
                     r = [("ext", f"{n.func.id}[{'literal-name' if lit else 'computed-name'}]")]
                 add(r, n.lineno, n)
+                cod = self.codec_argument(n, r)
+                if cod is not None:
+                    sites.append(Site(qual, "external", f"codec-lookup[{cod}]", n.lineno, () if cod == "literal-name" else ("import(computed-codec)",)))
             elif isinstance(n, ast.Attribute) and isinstance(n.ctx, ast.Load) and n.attr in self.props:
                 for q in self.props[n.attr]:
                     if q not in callees and not q.endswith(".setter"):
@@ -353,6 +356,37 @@ class EffectSystem:
                 sites.append(Site(qual, "external", "import " + ",".join(mods), n.lineno, ("import(static)",)))
         self._cache[qual] = (sites, callees)
         return sites, callees
+
+    @staticmethod
+    def codec_argument(call, resolved):
+        """a call that looks a codec up by name — x.encode(c) / x.decode(c) on a builtin receiver, str / bytes / bytearray(x, c), codecs.*(x, c),
+        any encoding= keyword: 'literal-name' / 'computed-name' (a codec lookup imports encodings.<name> and runs registered search
+        functions and the codec found: with a computed name that is an import chosen by data), None when the call looks nothing up"""
+        def lit(e):
+            return e is None or (isinstance(e, ast.Constant) and isinstance(e.value, str))
+        kw = {k.arg: k.value for k in call.keywords if k.arg}
+        f = call.func
+        names = [r[1] for r in (resolved or []) if r[0] == "ext"]
+        arg = None
+        looked = False
+        if isinstance(f, ast.Attribute) and f.attr in ("encode", "decode") and any(x.startswith("<builtin-type>.") for x in names):
+            looked = True
+            arg = call.args[0] if call.args else kw.get("encoding")
+            if any(isinstance(a, ast.Starred) for a in call.args) or any(k.arg is None for k in call.keywords):
+                return "computed-name"
+        elif isinstance(f, ast.Name) and f.id in ("str", "bytes", "bytearray") and (len(call.args) >= 2 or "encoding" in kw):
+            looked = True
+            arg = call.args[1] if len(call.args) >= 2 else kw.get("encoding")
+        elif any(x.split(".")[0] in ("codecs", "_codecs") for x in names):
+            looked = True
+            arg = call.args[1] if len(call.args) >= 2 else (kw.get("encoding") if "encoding" in kw else (call.args[0] if len(call.args) == 1 and
+                                                                                                          names[0].split(".")[-1] in ("lookup", "getencoder", "getdecoder", "getreader", "getwriter", "getincrementalencoder", "getincrementaldecoder") else None))
+        elif "encoding" in kw:
+            looked = True
+            arg = kw["encoding"]
+        if not looked:
+            return None
+        return "literal-name" if lit(arg) else "computed-name"
 
     @staticmethod
     def classify_open(fn, call):
